@@ -32,7 +32,10 @@ def gen_struct(rnd, depth=0):
         return [gen_struct(rnd, depth + 1) for _ in range(n)]
     if k < 0.88:
         return tuple(gen_struct(rnd, depth + 1) for _ in range(n))
-    keys = rnd.sample(["k0", "k1", "zeta", "alpha", "B", "a", "m2", "m10", "_x"], n)
+    # keys of every hashable kind a caller may use: they are labels, never values (numeric keys must not become public inputs)
+    keys = rnd.sample(["k0", "k1", "zeta", "alpha", "B", "a", "m2", "m10", "_x", 0, 1, 7, -3, 2.5, (1, 2), True, None], n)
+    if len({k if not isinstance(k, bool) else ("b", k) for k in keys}) != len({*keys}):
+        keys = [k for k in keys if not isinstance(k, bool)] or ["k0"]       # True == 1 as a dict key
     return {k: gen_struct(rnd, depth + 1) for k in keys}
 
 
@@ -163,6 +166,8 @@ def shape_results(rnd_seed, vals):
     if k < 0.8:
         keys = list(range(len(vals)))
         rnd.shuffle(keys)
+        if rnd.random() < 0.3:
+            return {k: v for k, v in zip(keys, vals)}          # integer keys in a result
         return {"r%d" % k: v for k, v in zip(keys, vals)}
     if k < 0.9:
         cut = rnd.randint(1, len(vals) - 1)
@@ -260,6 +265,11 @@ def worker(job):
             except Exception as e:  # noqa
                 R.count("call_raised:" + type(e).__name__)
                 desc.append(dict(args=repr(args), recipe=recipe, raised=repr(e)[:100]))
+                if not isinstance(e, (ValueError, AssertionError, ZeroDivisionError)):
+                    # the undecorated function returned on these arguments; a value outside an operator's domain raises one of the
+                    # classes above - anything else is the wrapper (or a conversion) failing on the structure it was handed
+                    R.violation("wrapped-call-raised:" + type(e).__name__, "the wrapped call raised %s: %s (the undecorated function returns %r)" % (
+                        type(e).__name__, str(e)[:120], plain_res), args=repr(args), recipe=recipe)
                 ok = False
                 break
             pubs = [(e[1], e[2]) for e in recorder.events[nev0:] if e[0] == "pub"]
